@@ -439,10 +439,13 @@ def rule_surrogate(ctx, m):
                 if xn["k"] in ("CXXFunctionalCastExpr", "CXXStaticCastExpr", "CStyleCastExpr", "InitListExpr", "CXXUnresolvedConstructExpr") and len(xn.get("ch", [])) == 1:
                     return ev(xn["ch"][0])
                 raise Unrecognised(ue.text(x))
-            for s in ue.nodes[blk]["ch"]:
+            # the statements between the gate and the second ToUTF, in source order, through whatever nesting of tests leads
+            # there (node ids are in pre-order)
+            gate_end = max(ue.walk(gate))
+            seq = [x for x in ue.walk(body) if gate_end < x < second[0] and ue.nodes[x]["k"] in ("DeclStmt", "BinaryOperator", "CompoundAssignOperator") and
+                   ue.nodes[par.get(x, x)]["k"] == "CompoundStmt"]
+            for s in seq:
                 sn = ue.nodes[s]
-                if s == par.get(second[0]) or second[0] in list(ue.walk(s)):
-                    break
                 if sn["k"] == "DeclStmt":
                     for d in sn["decls"]:
                         if "d" in d and d.get("init", -1) >= 0 and d.get("tk") in ("uint", "sint"):
@@ -470,7 +473,22 @@ def rule_surrogate(ctx, m):
     for c in hexcalls:
         args = ue.call_args(c)
         ok = len(args) == 2 and ue.const_value(args[1]) == 4
-        r3.ob(ue.q, ue.text(c), ok, "each \\u escape converts exactly 4 digits (length argument must be the constant 4)", ue.loc(c))
+        if len(args) == 3:
+            # the cursor form: the end is a local every definition of which is <cursor> + 4
+            curn = ue.nodes[ue.strip_casts(args[1])]
+            endn = ue.nodes[ue.strip_casts(args[2])]
+            defs = [d["init"] for st_ in astq.nodes_of(ue, "DeclStmt") for d in ue.nodes[st_]["decls"] if d.get("d") == endn.get("d") and d.get("init", -1) >= 0]
+            defs += [ue.nodes[x]["ch"][1] for x in astq.nodes_of(ue, "BinaryOperator") if ue.nodes[x]["op"] == "=" and ue.nodes[ue.strip(ue.nodes[x]["ch"][0])].get("d") == endn.get("d")]
+
+            def plus4(x):
+                x = ue.strip_casts(x)
+                xn = ue.nodes[x]
+                while xn["k"] == "ParenExpr":
+                    x = ue.strip_casts(xn["ch"][0])
+                    xn = ue.nodes[x]
+                return xn["k"] == "BinaryOperator" and xn["op"] == "+" and ue.nodes[ue.strip_casts(xn["ch"][0])].get("d") == curn.get("d") and ue.const_value(ue.strip_casts(xn["ch"][1])) == 4
+            ok = endn["k"] == "DeclRefExpr" and curn["k"] == "DeclRefExpr" and bool(defs) and all(plus4(x) for x in defs)
+        r3.ob(ue.q, ue.text(c), ok, "each \\u escape converts exactly 4 digits (the length is the constant 4, or the end of the cursor form is cursor + 4)", ue.loc(c))
     if len(hexcalls) != 2:
         r3.ob(ue.q, "hex conversions in the \\u arm", False, "expected 2 (code and low surrogate), found %d" % len(hexcalls), ue.loc(body))
     writes = []
